@@ -125,7 +125,13 @@ pub fn generate(seed: u64, tier: &str, property: &str) -> RenderScenario {
             3 => 3,
             _ => 0,
         };
-        let body = if rng.chance(1, 2) { Some("<em>body &amp; more</em>".to_string()) } else { None };
+        let body = match rng.below(6) {
+            0 | 1 => Some("<em>body &amp; more</em>".to_string()),
+            // a body is a value, never a template: syntax inside it must come out as text
+            2 => Some("{{ nope }}{% endfor %}<{{ body }}>{# c #}\u{e9}".to_string()),
+            3 => Some(String::new()),
+            _ => None,
+        };
         targets.push(Target::Component { name: c.name.clone(), ctx: comp_probe_ctx_x(c, extra), body, autoescape: rng.chance(1, 2) });
     }
     for s in oneoffs {
